@@ -876,7 +876,90 @@ def build_T16j(tree):
     return '\n\n'.join(parts), hashlib.sha256('\n'.join(shas).encode()).hexdigest()
 
 
+# ---------------------------------------------------------------- T16k: the ways out of the query loops
+def _loop_exits(stmts, cond, out, own=True):
+    """(kind, path condition) of every `continue` / `break` / `return` / `raise` of a loop body.  `continue` / `break` inside a
+    NESTED loop belong to that loop and are reported as 'inner-continue' / 'inner-break'."""
+    for st in stmts:
+        c = ' and '.join(cond) or 'True'
+        if isinstance(st, ast.Continue):
+            out.append(('continue' if own else 'inner-continue', c))
+        elif isinstance(st, ast.Break):
+            out.append(('break' if own else 'inner-break', c))
+        elif isinstance(st, ast.Return):
+            out.append(('return', c))
+        elif isinstance(st, ast.Raise):
+            out.append(('raise', c))
+        elif isinstance(st, ast.Expr) and isinstance(st.value, ast.Call) and ast.unparse(st.value.func).startswith('sequences.'):
+            out.append((ast.unparse(st.value.func).split('.', 1)[1] + '(' + ', '.join(ast.unparse(a) for a in st.value.args) + ')', c))
+        elif isinstance(st, ast.If):
+            t = ' '.join(ast.unparse(st.test).split())
+            _loop_exits(st.body, cond + (t,), out, own)
+            _loop_exits(st.orelse, cond + ('not (' + t + ')',), out, own)
+        elif isinstance(st, (ast.For, ast.While)):
+            _loop_exits(st.body, cond + ('<inner loop>',), out, False)
+            _loop_exits(st.orelse, cond + ('<else of inner loop>',), out, own)
+        elif isinstance(st, ast.Try):
+            _loop_exits(st.body, cond + ('try',), out, own)
+            for h in st.handlers:
+                _loop_exits(h.body, cond + ('except',), out, own)
+            _loop_exits(st.orelse, cond + ('try-else',), out, own)
+            _loop_exits(st.finalbody, cond + ('finally',), out, own)
+        elif isinstance(st, ast.With):
+            _loop_exits(st.body, cond, out, own)
+        elif isinstance(st, ast.Match):
+            raise Unsupported('match statement in a query loop')
+    return out
+
+
+def build_T16k(tree):
+    """For each of the three query methods: every way out of an iteration of `for group_item in measurement_group_items:` other
+    than running off its end (`continue` / `break` / `return` / `raise`, with the path condition) and every call on the result
+    list (`sequences.append(seq)`, with its path condition), whether the loop has an
+    `else:` clause, what the loop iterates over and how `measurement_group_items` is obtained, and the statements between the
+    loop and the final `return sequences`.  An answer is complete only if every group is visited: no `break`, no `return`,
+    the only `continue`s are the two of the kind test, nothing trims the result afterwards.
+      Gen.queryLoopExits : List (String × String × String)    (method, kind, condition)
+      Gen.queryLoopFrame : List (String × String × String)    (method, what, text): 'groups' = the expression the groups come
+                           from, 'else' = 'yes'/'no', 'tail' = statements after the loop, 'appends' = number of result appends"""
+    exits, frame, shas = [], [], []
+    for meth in ('get_planar_roi_measurement_groups', 'get_volumetric_roi_measurement_groups', 'get_image_measurement_groups'):
+        fn = find_func(tree, f'MeasurementReport.{meth}')
+        body = strip_doc(fn.body)
+        loops = [s for s in body if isinstance(s, ast.For) and ast.unparse(s.target) == 'group_item'
+                 and ast.unparse(s.iter) == 'measurement_group_items']
+        if len(loops) != 1:
+            raise Unsupported(f'{meth}: loop over measurement_group_items not found')
+        loop = loops[0]
+        for kind, c in _loop_exits(loop.body, (), []):
+            exits.append((meth, kind, c))
+        k = body.index(loop)
+        src = [s for s in body[:k] if isinstance(s, ast.Assign) and any(ast.unparse(t) == 'measurement_group_items' for t in s.targets)]
+        if len(src) != 1:
+            raise Unsupported(f'{meth}: measurement_group_items is not assigned exactly once before the loop')
+        frame.append((meth, 'groups', ' '.join(ast.unparse(src[0].value).split())))
+        frame.append((meth, 'else', 'yes' if loop.orelse else 'no'))
+        tail = body[k + 1:]
+        if not tail or not isinstance(tail[-1], ast.Return):
+            raise Unsupported(f'{meth}: does not end with a return')
+        frame.append((meth, 'tail', ' ; '.join(' '.join(ast.unparse(x).split()) for x in tail)))
+        napp = sum(1 for n in ast.walk(loop) if isinstance(n, ast.Call) and ast.unparse(n.func) in ('sequences.append', 'sequences.extend', 'sequences.insert'))
+        other = [ast.unparse(n.func) for n in ast.walk(fn) if isinstance(n, ast.Call) and isinstance(n.func, ast.Attribute)
+                 and ast.unparse(n.func.value) == 'sequences' and n.func.attr != 'append']
+        frame.append((meth, 'appends', str(napp)))
+        frame.append((meth, 'other-result-calls', ','.join(other)))
+        shas.append(ast.unparse(fn))
+    q = lambda x: '"' + x.replace('\\', '\\\\').replace('"', '\\"') + '"'   # noqa: E731
+    t1 = lean_table('queryLoopExits', 'List (String × String × String)', ['(' + ', '.join(q(x) for x in r) + ')' for r in exits],
+                    doc='per query method: (method, kind, path condition) of every continue / break / return / raise inside the loop over the groups')
+    t2 = lean_table('queryLoopFrame', 'List (String × String × String)', ['(' + ', '.join(q(x) for x in r) + ')' for r in frame],
+                    doc='per query method: where the groups come from, whether the loop has an else clause, what follows the loop, '
+                        'how the result list is used')
+    return t1 + '\n\n' + t2, hashlib.sha256('\n'.join(shas).encode()).hexdigest()
+
+
 TARGETS = {
+    'T16k': {'file': 'sr/templates.py', 'build': build_T16k},
     'T16h': {'file': 'sr/templates.py', 'build': build_T16h},
     'T16i': {'file': 'sr/templates.py', 'build': build_T16i},
     'T16j': {'file': 'sr/templates.py', 'build': build_T16j},
